@@ -5465,7 +5465,7 @@ fn eval_built_in_method_call(
                     return Err((
                         RestoreValues(saved_values),
                         EvalError::Exception(ExceptionInfo {
-                            position: arg_positions[0].clone(),
+                            position: receiver_pos.clone(),
                             message: format_type_error(
                                 &TypeName {
                                     text: "Dict".into(),
@@ -5893,7 +5893,7 @@ fn eval_built_in_method_call(
                     return Err((
                         RestoreValues(saved_values),
                         EvalError::Exception(ExceptionInfo {
-                            position: arg_positions[0].clone(),
+                            position: receiver_pos.clone(),
                             message: format_type_error(
                                 &TypeName {
                                     text: "List".into(),
